@@ -785,6 +785,8 @@ impl Sim for C12 {
             "a-very-long-algorithm-name-0123456789-0123456789-0123456789-0123456789-x",
             "\tsha1", "\u{3000}sha1", "sha1\t",
             // ASCII capitals after a non-ASCII character, and a non-ASCII capital after an ASCII one.
+            // Characters that other layers treat as separators or escapes.
+            "sha1;v2", "a;b", "crc%32", "a%41", "%ff", "50%", "%", "%%", "a%2Cb", "a%2cb", "a'b", "a\"b", "a|b", "a\u{7f}b", "a\u{0}b",
             "éB", "éb", "ßX", "ßx", "漢字Sum", "漢字sum", "résumé-SHA", "XÉ", "xé", "GOST-Э", "gost-э", "AΣ",
         ];
         const MODES: &[Mode] = &[
